@@ -30,13 +30,13 @@ META = {
             "translator regenerates the table of all ~150 JSON fields of the 15 sections on every run and `decide` re-checks over it: every row is "
             "copied by a lossless kind pair or is on a reasoned allow-list, is loaded iff saved, into the field it is saved from, omits exactly its "
             "default, hides secret-named keys, has a valid default, every apply function ends in Validate(). The unchanged tree fails the full "
-            "statement (theorem C15_full_fails); C15_partial holds outside an explicit, proved-exact exception list (findings K15a-c). The real "
+            "statement (theorem C15_full_fails); C15_partial holds outside an explicit, proved-exact exception list (findings K11, K12). The real "
             "LoadJSON/ToJSON/Validate/ApplyEnvVars/ToDisplayJSON and config.Manager are then swept per field and per value, alone, on a dirty "
             "object, inside a full file and through environment variables; the Lean property checker runs on every real observation and the "
             "kind model predicts accept/refuse and the saved value for every lossless row.",
     "note": "Trusted: Lean kernel (+propext, Classical.choice, Quot.sound), the go/ast translator's pattern matcher (fail-closed), the harness "
-            "(reflection on Config fields, value classification), Go's time and encoding/json. Known findings on the unchanged tree: K15a "
-            "(booleans cannot be set to false under SetIfNotDefault/mergo), K15b (explicit empty string/list replaced by the default), K15c (crdt "
-            "drops the ParseDurations error), K15d (Manager.LoadJSON panics on a null section).",
+            "(reflection on Config fields, value classification), Go's time and encoding/json. Known findings on the unchanged tree: K11 "
+            "(booleans cannot be set to false under SetIfNotDefault/mergo), K12 (explicit empty string/list replaced by the default). Found by this "
+            "check and since repaired in /repo: crdt dropped the ParseDurations error (639679f), Manager.LoadJSON panicked on a null section (c0fa836).",
     "technique": "Lean 4 theorems per copy-kind for all values + go/ast translator with decide over the regenerated schema + differential sweeps of the real loaders",
 }
